@@ -44,8 +44,19 @@ fn date_expr(r: &mut Rng, g: &SemGen) -> Expr {
     Expr::Lit(Lit::Date(g.date_lit(r, "en", y, m, d, true)))
 }
 
-fn gen_line(r: &mut Rng, g: &SemGen) -> Expr {
+/// a timestamp within +-14 h of 1 January of the simulated current year or the next one: the
+/// year shown depends on the zone the date-time is shown in
+fn new_year_ts(r: &mut Rng, t: i128) -> i64 {
+    let y = crate::clock::utc_date(t).0 + r.below(2) as i64;
+    crate::clock::days_from_civil(y.min(9998), 1, 1) * 86400 + r.range(-14 * 3600, 14 * 3600)
+}
+
+fn gen_line(r: &mut Rng, g: &SemGen, t: i128) -> Expr {
     let b = Box::new;
+    if r.chance(1, 10) {
+        let zone = if r.chance(2, 3) { Some(g.zone(r)) } else { None };
+        return Expr::FromUnix { e: b(Expr::Lit(Lit::Num(NumLit::int(new_year_ts(r, t))))), conn: conn_opt(r), zone };
+    }
     match r.below(10) {
         0 | 1 | 2 => { let zone = if r.chance(1, 2) { Some(g.zone(r)) } else { None }; Expr::FromUnix { e: b(Expr::Lit(Lit::Num(NumLit::int(ts(r))))), conn: conn_opt(r), zone } }
         3 | 4 | 5 => Expr::AsUnix { e: b(date_expr(r, g)), conn: conn_opt(r), word: unix_word(r) },
@@ -111,7 +122,7 @@ impl Check for C14 {
                     };
                     lines.push(Line::Sem(Stmt::Eval(e)));
                 } else {
-                    lines.push(Line::Sem(Stmt::Eval(gen_line(&mut r, &g))));
+                    lines.push(Line::Sem(Stmt::Eval(gen_line(&mut r, &g, t))));
                 }
             }
             let text = TextSpec { crlf: vec![false; lines.len()], lines, trailing_nl: false };
